@@ -115,7 +115,10 @@ func (c *reconnectClient) Connect(ctx context.Context, clientID string, opts ...
 								c.options.PingInterval,
 								c.options.Timeout,
 							); err != nil {
-								c.Client().SetErrorOnce(err)
+								if ctxKeepAlive.Err() == nil {
+									// Report the error only while this connection is in use.
+									baseCli.SetErrorOnce(err)
+								}
 								// The client should close the connection if PINGRESP is not returned.
 								// MQTT 3.1.1 spec. 3.1.2.10
 								baseCli.Close()
